@@ -1,0 +1,9 @@
+//go:build verif
+
+package agent
+
+// VerifC34MagicNumbers exposes the handshake magic numbers to the
+// verification harness (server's, client's).
+func VerifC34MagicNumbers() ([3]byte, [3]byte) {
+	return serverMagicNumber, clientMagicNumber
+}
